@@ -29,6 +29,11 @@ Record fmt := {
   f_layout : layout;
   f_concat : bool;            (* the buffer class has a `concatenate` method (DelimitedBuffer: yes, OneLineBuffer: no) *)
   f_nowrite : list nat;       (* fields whose presence in _set_values makes lazy get_buffer raise *)
+  f_ragged : bool;            (* the dataclass has a ragged text column: row access t[i] on a lazily read table goes through
+                                 npstructures' RaggedView2._get_row, which raises TypeError under NumPy 2 *)
+  f_eager_write_fails : bool; (* the EAGER writer cannot serialise a table read from a file WITH header lines (VCF: the info
+                                 column is then typed InfoDataclass and dump_csv.get_column raises KeyError) *)
+  f_default_hdr : list Z;     (* what the EAGER writer emits for a table without header context (VCF: a default header) *)
   f_sid : list nat            (* SequenceID fields: parsing one from a buffer with ZERO records raises
                                  (string_array of a 0x0 matrix); [] once notes/C05.fix-2.diff is applied *)
 }.
@@ -396,8 +401,10 @@ Definition m_step (cc : fmt -> list lazy -> option lazy) (F : fmt) (hdr : list Z
   | OAt r i =>      (* self[[i]].get_data_object()[0] *)
       match nth_error regs r with
       | Some t => match resolve (t_len t) (ITake [i]) with
-                  | Some sel => (regs, XRow (nth 0 (match t with TLazy l => l_rows F (l_index sel l)
-                                                              | TEager t => s_index sel t end) []))
+                  | Some sel => (regs, match t with
+                                       | TLazy l => if f_ragged F then XErr       (* ...[0] on a RaggedView2 column raises *)
+                                                    else XRow (nth 0 (l_rows F (l_index sel l)) [])
+                                       | TEager t => XRow (nth 0 (s_index sel t) []) end)
                   | None => (regs, XErr) end
       | None => (regs, XErr) end
   | OCat r srcs =>
@@ -468,6 +475,10 @@ Definition m_guard (F : fmt) (regs : list table) (o : op) : bool :=
       match nth_error regs r with
       | Some (TLazy l) => fst (l_fill F (all_fields F) l)
       | _ => true end
+  | OAt r i =>
+      match nth_error regs r with
+      | Some (TLazy l) => negb (f_ragged F)
+      | _ => true end
   | _ => true
   end.
 (* the guard evaluated along the model's own run *)
@@ -506,6 +517,36 @@ Definition rec_canon (F : fmt) (r : rawrec) : bool :=
   cells_canon (f_kinds F) (r_fields r) && zlist_eqb (r_raw r) (render (f_layout F) (r_fields r)).
 (* write observations erased: what is compared on files that are not canonically spelled *)
 Definition erase (x : obs) : obs := match x with XBytes _ => XBytes [] | _ => x end.
+
+(* ---------------------------------------------------------------- the EAGER implementation, where it is not the Spec
+   An eagerly read table is the row list of the Spec, plus whether it still carries the file's header context
+   (npdataclass context: only the object returned by read() has it; every derived table — indexing, replace,
+   concatenate, hence also a chunked read — has lost it).  Everything but `write` is the Spec's step. *)
+Definition etable := (rows * bool)%type.
+Definition e_write (F : fmt) (hdr : list Z) (t : etable) : obs :=
+  let h := if snd t then hdr else f_default_hdr F in
+  match fst t, hdr with
+  | _ :: _, _ :: _ => if f_eager_write_fails F then XErr else XBytes (s_write F h (fst t))
+  | _, _ => XBytes (s_write F h (fst t))      (* an empty table: the header is written, then the writer returns *)
+  end.
+Definition e_step (F : fmt) (hdr : list Z) (regs : list etable) (o : op) : list etable * obs :=
+  match o with
+  | OWrite r => match nth_error regs r with Some t => (regs, e_write F hdr t) | None => (regs, XErr) end
+  | _ => let '(rs, x) := s_step F hdr (map fst regs) o in
+         (* the register an operation assigns holds a derived table: no header context *)
+         let ctx := match o, x with
+                    | OIndex r _, XOk | OCat r _, XOk | ORep r _ _, XOk => set_nth r false (map snd regs)
+                    | _, _ => map snd regs end in
+         (combine rs ctx, x)
+  end.
+Fixpoint e_run (F : fmt) (hdr : list Z) (regs : list etable) (p : list op) : list obs :=
+  match p with
+  | [] => []
+  | o :: p' => let '(regs', x) := e_step F hdr regs o in x :: e_run F hdr regs' p'
+  end.
+(* the eager implementation is the Spec exactly when the file has no header lines and the writer has no default header *)
+Definition eager_guard (F : fmt) (hdr : list Z) : bool :=
+  match hdr, f_default_hdr F with [], [] => true | _, _ => false end.
 
 (* ---------------------------------------------------------------- decision rules, named
    Bridge/C05.v proves (a) that the rules regenerated from /repo on every run (Gen/C05.v, translate/gen_c05.py) are
